@@ -12,6 +12,7 @@ import (
 	"slices"
 	"strconv"
 	"strings"
+	"sync"
 	"time"
 
 	"github.com/unkn0wn-root/kioshun"
@@ -55,6 +56,26 @@ type Middleware struct {
 	patternEnabled bool
 	patternIdx     *patternIndex
 	pathExtract    PathExtractor
+
+	// store indexes a key and then writes it to the cache; the removal listener
+	// reconciles the index by response identity. Those two steps must not
+	// interleave with another store of the same key (the loser's late cache write
+	// would leave a cached key that the index has already forgotten) nor with
+	// Clear's two steps. storeMu serialises stores per key stripe; clearMu lets
+	// Clear exclude every store.
+	storeMu [storeStripes]sync.Mutex
+	clearMu sync.RWMutex
+}
+
+const storeStripes = 64
+
+// storeStripe picks the stripe serialising stores of key (FNV-1a).
+func storeStripe(key string) uint32 {
+	h := uint32(2166136261)
+	for i := 0; i < len(key); i++ {
+		h = (h ^ uint32(key[i])) * 16777619
+	}
+	return h % storeStripes
 }
 
 // New creates a caching Middleware from config, applying DefaultConfig for unset fields.
@@ -155,6 +176,8 @@ func (m *Middleware) Stats() kioshun.Stats { return m.cache.Stats() }
 
 // Clear removes all cached entries.
 func (m *Middleware) Clear() {
+	m.clearMu.Lock()
+	defer m.clearMu.Unlock()
 	m.cache.Clear()
 	m.patternIdx.clear()
 }
@@ -204,6 +227,12 @@ func (m *Middleware) store(key string, resp *Response, ttl time.Duration) error 
 	if path == "" {
 		return m.cache.Set(key, resp, ttl)
 	}
+
+	m.clearMu.RLock()
+	defer m.clearMu.RUnlock()
+	mu := &m.storeMu[storeStripe(key)]
+	mu.Lock()
+	defer mu.Unlock()
 
 	m.patternIdx.addKey(path, key, resp)
 	if err := m.cache.Set(key, resp, ttl); err != nil {
